@@ -98,6 +98,17 @@ CHECKS["C04"] = dict(
     note="Trusted: TLC, projection. One known finding (see known_findings.json).",
     ref="5/C04", technique="TLA+ spec with configurations in Init + TLC, replay, trace validation")
 
+CHECKS["C03"] = dict(
+    text="Values.tla: the abstract value of an object is its projection; JPair requires python's == to agree with "
+         "equality of projections, to be symmetric (both directions recorded), transitive on recorded triples, "
+         "hash-consistent, a box to equal its one-box diagram, equal keys to be found in a functor's mapping, and "
+         "repr to evaluate back to an equal value. Pairs: all descriptor pairs generated by TLC (objects with "
+         "windings, types, boxes with dagger flag/data) in cat, monoidal and rigid; model states of the diagram "
+         "machines built along different construction paths (constructor, composition, simulated API histories, "
+         "double dagger) and sums of them.",
+    note="Trusted: TLC, the projection. Data payloads from a finite menu.",
+    ref="5/C03", technique="TLA+ spec + TLC-generated pairs and paths, trace validation of recorded comparisons")
+
 NOT_YET = {}
 
 
